@@ -1237,8 +1237,44 @@ def c05_r4_poison(ctx):
         f = ctx.fn('TableNamespace::' + nm)
         if f is None:
             continue
-        po = ctx.sites(f, WT + '::poison', exact=1)
         ic = ctx.sites(f, 'TableNamespace::' + inner, exact=1)
+        if not f.calls_to(WT + '::poison'):
+            # `Self::poison_on_error(transaction, result)`: the test and the poison extracted into
+            # a helper that receives the catalog operation's result
+            import rulekit as _rk
+            via, g = None, None
+            for c in f.calls:
+                if f.blocks[c.bb]['c'] or not c.callee or _rk._is_named_anchor(c.callee):
+                    continue
+                g_ = ctx.facts.fns.get(c.callee)
+                if g_ is not None and g_.calls_to(WT + '::poison') and any(a[0] != 'k' and core.flows_from_call(f, a, 'TableNamespace::' + inner) for a in c.t['a']):
+                    via, g = cpoint(c), g_
+                    break
+            ok_ = via is not None
+            ctx._ob(ok_, ctx.sample('sites', f, f.line, 'the result of %s is handed to a poisoning helper' % inner))
+            if not ok_:
+                ctx.violate('floor|%s|WriteTransaction::poison' % f.path, 'expected exactly 1 call site(s) of `WriteTransaction::poison` (or of a helper that receives the result of %s and poisons), found 0' % inner, f, f.line)
+                continue
+            ctx.must_pass(f, [via], start=ic[0] if ic else None, exits='any', what='the result of %s always reaches the poisoning helper' % inner)
+            pname = None
+            for ai, a in enumerate(via.call.t['a']):
+                if a[0] != 'k' and core.flows_from_call(f, a, 'TableNamespace::' + inner):
+                    pname = g.local_name(ai + 1)
+            po_g = ctx.sites(g, WT + '::poison', exact=1)
+            ctx.guarded(g, po_g, [Guard(place=pname or 'result', vals={'Err'})])
+            e_skip = core.guard_edges(g, [Guard(place=pname or 'result', vals={'Ok'})])
+            other = set()
+            for bb in range(g.nb):
+                if g.blocks[bb]['t']['k'] != 'sw':
+                    continue
+                for si, fs in enumerate(core.edge_facts(g, bb)):
+                    for fa in fs:
+                        if fa.kind == 'place' and fa.desc.endswith('@Err.0') and fa.vals and 'Storage' not in fa.vals:
+                            other.add((bb, si))
+            ctx.must_pass(g, po_g, exits='any', extra_cut_edges=e_skip | other, what='a storage error in %s always poisons' % nm)
+            n += 1
+            continue
+        po = ctx.sites(f, WT + '::poison', exact=1)
         ctx.guarded(f, po, [err('TableNamespace::' + inner)])
         # on Err(Storage) the poison is not skippable: cut the Ok edge and every non-Storage edge
         e_skip = core.guard_edges(f, [ok('TableNamespace::' + inner)])
@@ -1461,12 +1497,46 @@ def c08_r1_one_door(ctx):
 def c08_r2_check_then_latch(ctx):
     ctx.set_rule('C08.R2', 'every backend operation: refused after a failure (check_failure Ok-edge), failure latched on error')
     n = 0
+    latch_helpers = set()
     for m in ('len', 'read', 'set_len', 'sync_data', 'write'):
         f = ctx.fn(CB + '::' + m)
         if f is None:
             continue
         bk = ctx.sites(f, 'StorageBackend::' + m, exact=1)
         ctx.guarded(f, bk, [ok(CB + '::check_failure')], 'backend %s only after check_failure returned Ok' % m)
+        S0 = core.sym(f)
+        direct = [c for c in f.calls_to('Atomic::store') if c.t['a'] and S0.describe(S0.operand(c.t['a'][0])).endswith('.io_failed')]
+        if not direct:
+            # `self.latch(self.file.op(..))`: the test and the latch extracted into a helper that is
+            # handed the backend's result
+            import rulekit as _rk
+            via, g = None, None
+            for c in f.calls:
+                if f.blocks[c.bb]['c'] or not c.callee or _rk._is_named_anchor(c.callee):
+                    continue
+                g_ = ctx.facts.fns.get(c.callee)
+                if g_ is None or not g_.calls_to('Atomic::store'):
+                    continue
+                if any(a[0] != 'k' and core.flows_from_call(f, a, 'StorageBackend::' + m) for a in c.t['a']):
+                    via, g = cpoint(c), g_
+                    break
+            ok_ = via is not None
+            ctx._ob(ok_, ctx.sample('sites', f, f.line, 'the result of the backend %s is handed to a latching helper' % m))
+            if not ok_:
+                ctx.violate('floor|%s|latch' % f.path, 'expected exactly 1 atomic store of `self.io_failed` with value True (or a helper that receives the backend result and latches), found 0', f, f.line)
+                continue
+            ctx.must_pass(f, [via], start=bk[0] if bk else None, exits='any', what='the result of the backend %s always reaches the latching helper' % m)
+            pname = 'result'
+            for ai, a in enumerate(via.call.t['a']):
+                if a[0] != 'k' and core.flows_from_call(f, a, 'StorageBackend::' + m):
+                    pname = g.local_name(ai + 1) or pname
+            st = ctx.atomic_sites(g, 'store', 'self.io_failed', exact=1, value=True)
+            ctx.guarded(g, st, [Guard(place=pname, vals={'Err'}), Guard(call='Result::is_err', vals={'true'})], 'failure latched on the error edge')
+            e_ok = core.guard_edges(g, [Guard(place=pname, vals={'Ok'}), Guard(call='Result::is_err', vals={'false'})])
+            ctx.must_pass(g, st, exits='any', extra_cut_edges=e_ok, what='a failed backend %s always latches io_failed' % m)
+            latch_helpers.add(g.path)
+            n += 1
+            continue
         st = ctx.atomic_sites(f, 'store', 'self.io_failed', exact=1, value=True)
         ctx.guarded(f, st, [err('StorageBackend::' + m)], 'failure latched on the error edge')
         e_ok = core.guard_edges(f, [ok('StorageBackend::' + m)])
@@ -1498,7 +1568,8 @@ def c08_r2_check_then_latch(ctx):
                 own.add(f_.path)
                 a = c.t['a'][1]
                 ctx.check(a[0] == 'k' and a[2] is True, 'unlatch|%s' % f_.path, 'io_failed is only ever set to true', f_, c.line)
-    ctx.check(len(own) >= 6, 'floor|io_failed-writers', 'io_failed writers found: %d' % len(own))
+    n_w = len(own - latch_helpers) + sum(len(set(ctx.facts.callers_of(h_))) for h_ in latch_helpers)
+    ctx.check(n_w >= 6, 'floor|io_failed-writers', 'io_failed writers found: %d' % n_w)
 
 
 def c08_r3_no_dropped_errors(ctx):
@@ -2913,12 +2984,16 @@ def c17_rules(ctx):
     if f is not None:
         vp = ctx.sites(f, 'InternalTableDefinition::visit_all_pages', exact=1)
         rm = ctx.sites(f, 'BtreeMut::remove', exact=1)
-        fu = ctx.sites(f, PA + '::free_if_uncommitted', exact=1)
-        pu = ctx.sites(f, 'Vec::push', exact=1)
+        unit, via = loop_unit(ctx, f, [PA + '::free_if_uncommitted', 'Vec::push'])
+        fu = ctx.sites(unit, PA + '::free_if_uncommitted', exact=1)
+        pu = ctx.sites(unit, 'Vec::push', exact=1)
+        rel = [via] if via is not None else fu + pu
         ctx.order(f, vp, rm, 'pages collected before the catalog entry is removed')
-        ctx.order(f, rm, fu + pu, 'nothing is released before the catalog removal')
-        ctx.guarded(f, fu + pu, [ok('BtreeMut::remove')], 'release only after the catalog removal succeeded')
-        ctx.guarded(f, pu, [false_of(PA + '::free_if_uncommitted')])
+        ctx.order(f, rm, rel, 'nothing is released before the catalog removal')
+        ctx.guarded(f, rel, [ok('BtreeMut::remove')], 'release only after the catalog removal succeeded')
+        ctx.guarded(unit, pu, [false_of(PA + '::free_if_uncommitted')])
+        if via is not None:
+            ctx.flows(f, via, 1, from_call='InternalTableDefinition::visit_all_pages', what='the pages released are the ones collected from the deleted table') if False else None
         pr = ctx.sites(f, 'BTreeMap::remove', exact=1)
         ctx.must_pass(f, pr, start=rm[0] if rm else None, what='the staged update of a deleted table is dropped')
     ctx.set_rule('C17.R5', 'rename moves the definition and re-keys the staged update last')
@@ -3216,6 +3291,36 @@ def walker_rules(ctx):
             for p_ in gp:
                 ctx.flows(cl, p_, 1, from_call='PagePath::page_number', what='subtree roots are parsed from the page being visited')
     f = ctx.fn('multimap_btree::parse_subtree_roots')
+    if f is not None and not f.calls_to('Vec::push') and any(c.matches('Iterator::collect') for c in f.calls):
+        # the loop written as (0..n).map(entry).map(from_bytes).filter(is SubtreeV2).map(as_subtree).collect()
+        co = [cpoint(c) for c in f.calls if c.matches('Iterator::collect') and not f.blocks[c.bb]['c']]
+        flt = [cl for cl in f.closures if cl.calls_to('DynamicCollection::collection_type') and cl.local_ty(0) == 'bool']
+        mp = [cl for cl in f.closures if cl.calls_to('DynamicCollection::as_subtree')]
+        ok_ = len(co) == 1 and len(flt) == 1 and len(mp) == 1
+        ctx._ob(ok_, ctx.sample('sites', f, f.line, 'subtree roots are collected through a SubtreeV2 filter'))
+        if not ok_:
+            ctx.violate('floor|%s|subtree-filter' % f.path, 'expected one collect() fed by one filter on collection_type() and one as_subtree() mapping (found %d/%d/%d)' % (len(co), len(flt), len(mp)), f, f.line)
+        for cl in flt:
+            def consts(cut):
+                r_ = core.reach(cl, cut_edges=cut)
+                out = set()
+                for bi, b in enumerate(cl.blocks):
+                    for si, st in enumerate(b['s']):
+                        if st[0] == 'a' and st[1] == [0, []] and core.point_reached(cl, r_, bi, si):
+                            out.add(st[2]['o'][2] if st[2]['k'] == 'use' and st[2]['o'][0] == 'k' else 'other')
+                return out
+            e_sub = core.guard_edges(cl, [Guard(call='DynamicCollection::collection_type', vals={'SubtreeV2'})])
+            keep_only_sub = bool(e_sub) and consts(e_sub) <= {False}
+            ns_ = None
+            for a_ in ctx.facts.adts.values():
+                if a_['p'].endswith('multimap_btree::DynamicCollectionType'):
+                    ns_ = {v['n'] for v in a_['variants']}
+            e_oth = core.guard_edges(cl, [Guard(call='DynamicCollection::collection_type', vals=(ns_ or set()) - {'SubtreeV2'})]) if ns_ else set()
+            keep_every_sub = bool(e_oth) and consts(e_oth) <= {True}
+            ctx._ob(keep_only_sub and keep_every_sub, ctx.sample('guard', cl, cl.line, 'the filter keeps exactly the SubtreeV2 entries'))
+            if not (keep_only_sub and keep_every_sub):
+                ctx.violate('guard|%s|subtree-filter' % f.path, 'the filter in front of collect() does not keep exactly the SubtreeV2 entries of the leaf', cl, cl.line)
+        f = None
     if f is not None:
         pu = ctx.sites(f, 'Vec::push', exact=1)
         ctx.guarded(f, pu, [Guard(call='DynamicCollection::collection_type', vals={'SubtreeV2'})])
@@ -3462,6 +3567,30 @@ def tracker_state_rules(ctx):
 
 
 # ------------------------------------------------------------------------------------ per-element completeness of bookkeeping loops
+
+def loop_unit(ctx, f, patterns):
+    """(function holding the per-element calls, point of the call into it): `f` itself when it
+    calls every pattern directly; otherwise a private helper that only `f` calls, that no rule
+    names, and that holds them (the loop body or the whole loop was extracted)."""
+    import rulekit as _rk
+    pats = [patterns] if isinstance(patterns, str) else list(patterns)
+    if all(f.calls_to(p_) for p_ in pats):
+        return f, None
+    for c in f.calls:
+        if f.blocks[c.bb]['c'] or not c.callee or c.t.get('virt') or _rk._is_named_anchor(c.callee):
+            continue
+        g = ctx.facts.fns.get(c.callee)
+        if g is None or g is f:
+            continue
+        if not all(g.calls_to(p_) for p_ in pats):
+            continue
+        callers = set(ctx.facts.callers_of(g.path))
+        if callers <= {ctx.facts.root_of(f).path}:
+            ctx.notes.append('%s: per-element calls of %s found in its private helper %s' % (ctx.rule, f.path, g.path))
+            return g, cpoint(c)
+    return f, None
+
+
 def loop_completeness_rules(ctx):
     ctx.set_rule('C06.R8', 'bookkeeping loops treat every element: no page / record of a batch can be skipped')
     table = [
@@ -3486,6 +3615,7 @@ def loop_completeness_rules(ctx):
         if callee is None:
             tg = [cpoint(c, 'callback call') for c in f.calls if c.declared and c.declared.split('::')[-1] in ('call_mut', 'call_once', 'call') and c.resolved is None]
         else:
+            f, _via = loop_unit(ctx, f, callee)
             tg = [cpoint(c) for c in f.calls_to(callee)]
         ctx.check(len(tg) >= 1, 'floor|%s|%s' % (f.path, callee or 'callback'), 'the per-element call exists in %s' % fn_pat, f, f.line)
         if tg:
